@@ -22,16 +22,6 @@ DfsOK(g, c) ==
     /\ NoDup(c.seq3) /\ SeqRange(c.seq3) = ReachFrom(g, c.t)
     /\ NoDup(c.seq4) /\ SeqRange(c.seq4) = ReachFrom(g, c.s)       \* foreign map, then reset
     /\ NoDup(c.seq5) /\ SeqRange(c.seq5) = ReachFrom(g, c.s)       \* through Walker::iter (WalkerIter)
-\* move_to in the middle of a traversal: what was emitted stays discovered, the pending stack is dropped; the rest is
-\* exactly what is reachable from the new start without passing through an emitted node (nothing if t was emitted)
-RECURSIVE ReachAvoidSet(_, _, _)
-ReachAvoidSet(g, X, avoid) == LET T == X \cup {w \in UNION {Succ(g, u) : u \in X} : w \notin avoid} IN
-                               IF T = X THEN X ELSE ReachAvoidSet(g, T, avoid)
-DfsMidOK(g, c) ==
-    LET done == SeqRange(c.pre) IN
-    /\ NoDup(c.pre) /\ done \subseteq ReachFrom(g, c.s)
-    /\ NoDup(c.post)
-    /\ SeqRange(c.post) = (IF c.t \in done THEN {} ELSE ReachAvoidSet(g, {c.t}, done))
 \* DfsPostOrder: a node only after each successor that cannot reach it back
 PostOK(g, seq, s, already) ==
     /\ NoDup(seq) /\ SeqRange(seq) = ReachFrom(g, s) \ already
@@ -42,6 +32,20 @@ DpoOK(g, c) == /\ PostOK(g, c.seq, c.s, {}) /\ c.none_again
                /\ PostOK(g, c.seq3, c.t, {})
                /\ PostOK(g, c.seq4, c.s, {})
                /\ PostOK(g, c.seq5, c.s, {})
+\* move_to in the middle of a traversal: what was emitted stays discovered, the pending stack is dropped; the rest is
+\* exactly what is reachable from the new start without passing through an emitted node (nothing if t was emitted)
+RECURSIVE ReachAvoidSet(_, _, _)
+ReachAvoidSet(g, X, avoid) == LET T == X \cup {w \in UNION {Succ(g, u) : u \in X} : w \notin avoid} IN
+                               IF T = X THEN X ELSE ReachAvoidSet(g, T, avoid)
+DfsMidOK(g, c) ==
+    LET done == SeqRange(c.pre) IN
+    /\ NoDup(c.pre) /\ done \subseteq ReachFrom(g, c.s)
+    /\ NoDup(c.post)
+    /\ SeqRange(c.post) = (IF c.t \in done THEN {} ELSE ReachAvoidSet(g, {c.t}, done))
+    \* reset in the middle: nothing pending, nothing remembered
+    /\ c.pending = 0 /\ c.rrest = <<>>
+    /\ NoDup(c.rseed) /\ SeqRange(c.rseed) = ReachFrom(g, c.t)
+    /\ PostOK(g, c.pseed, c.t, {})
 \* Bfs: reachable nodes each once, in non-decreasing hop distance
 BfsOK(g, c) ==
     LET d == Dist(Unit(g), c.s) IN
